@@ -10,7 +10,9 @@
 #
 # The same vectors are evaluated by the Rust harness (one line per vector on stdin) and by Coq
 # (`Eval vm_compute` over coq/Codec/Flat.v, compiled with `coqc -Q <coq root> Salsa`; the .vo
-# files of the main build must exist).  Environment overrides (for development):
+# files of the main build must exist).  If `repo` is not /repo (a scratch checkout with the
+# hook applied) a copy of the harness crate pointing at it is built under <build>/alt.
+# Environment overrides (for development):
 #   VERIF_COQ_ROOT    default /verif/coq
 #   VERIF_BUILD_DIR   default /verif/.build
 #   VERIF_CODEC_CRATE default /verif/harness-codec
@@ -262,9 +264,22 @@ def serde_vectors(rng, tier):
 
 # --------------------------------------------------------------------------- running
 
-def build_harness(persistence):
+def build_harness(persistence, repo="/repo"):
     crate = _env("VERIF_CODEC_CRATE", "/verif/harness-codec")
     build = _env("VERIF_BUILD_DIR", "/verif/.build")
+    if os.path.realpath(repo) != "/repo":
+        # a scratch checkout: build a copy of the crate whose path dependency points at it
+        import shutil
+        alt = os.path.join(build, "harness-codec-alt")
+        os.makedirs(os.path.join(alt, "src"), exist_ok=True)
+        for name in ("Cargo.lock", "rust-toolchain.toml", "src/main.rs"):
+            shutil.copyfile(os.path.join(crate, name), os.path.join(alt, name))
+        with open(os.path.join(crate, "Cargo.toml")) as fh:
+            toml = fh.read().replace('path = "/repo"', 'path = "%s"' % os.path.realpath(repo))
+        with open(os.path.join(alt, "Cargo.toml"), "w") as fh:
+            fh.write(toml)
+        crate = alt
+        build = os.path.join(build, "alt")
     target = os.path.join(build, "target-codec-persist" if persistence else "target-codec")
     env = dict(os.environ)
     env["CARGO_NET_OFFLINE"] = "true"
@@ -373,7 +388,7 @@ def run_codec_diff(repo, seed, tier):
                "seed": seed, "tier": tier, "repo": repo, "what": "model validation, not proof"}
     t0 = time.time()
     main_vectors = kernel_vectors(rng, tier) + origin_vectors(rng, tier)
-    binary = build_harness(False)
+    binary = build_harness(False, repo)
     t1 = time.time()
     rust = run_rust(binary, main_vectors)
     t2 = time.time()
@@ -381,7 +396,7 @@ def run_codec_diff(repo, seed, tier):
     t3 = time.time()
     compare(main_vectors, rust, coq, summary)
     sv = serde_vectors(rng, tier)
-    pbinary = build_harness(True)
+    pbinary = build_harness(True, repo)
     t4 = time.time()
     prust = run_rust(pbinary, sv)
     pcoq = run_coq(sv, "serde_%s" % seed)
